@@ -950,4 +950,8 @@ def extra_checks(ctx, cases_, impl_lines, model_lines_):
             # size limits, intervals and refresh rates written as strings or numbers mean the same number of bytes /
             # the same unit in a document as in the programmatic configuration (C20's literals, all three fields)
             + xcheck.borrow(ctx, "C20", "numeric literals of a document (limit, interval, refresh_rate)",
-                            lambda c: True, n=2500, seed_salt=13))
+                            lambda c: True, n=2500, seed_salt=13)
+            # a kind registered twice: the factory registered LAST is the one a document gets (C03's configuration-file
+            # cases re-register `threshold`)
+            + xcheck.borrow(ctx, "C03", "the deserializer registered last for a kind builds the document's component",
+                            lambda c: len(c) == 6, n=200, seed_salt=31))
